@@ -123,8 +123,13 @@ class CompoundQuery(qcore.Query):
         subqueries = []
         for s in self.subqueries:
             s = s.normalize()
-            if isinstance(s, self.__class__):
-                subqueries += [ss.with_boost(ss.boost * s.boost) for ss in s]
+            if (isinstance(s, self.__class__)
+                and (s.boost == 1.0 or all(hasattr(ss, "boost") for ss in s))):
+                # Not every query type has a boost (spans, nested queries,
+                # constant-score wrappers): keep such a clause as it is, and
+                # keep the nested group if its boost can't be pushed down
+                subqueries += [ss.with_boost(ss.boost * s.boost)
+                               if hasattr(ss, "boost") else ss for ss in s]
             else:
                 subqueries.append(s)
 
